@@ -145,6 +145,8 @@ func verifyFuncOnce(prog *Program, cs *ContractSet, full string, c *Contract, kf
 }
 
 func (x *Exec) verifyBody(fn *ssa.Function, c *Contract, res *FuncResult) {
+	appendLikeArg = x.appendLikeArgOf
+	heapElemFields = x.heapElemFieldsOf
 	st := &State{heap: map[string]string{}, base: 0, guard: "true"}
 	a0 := x.s.declare("alloc0", "Int")
 	x.s.assume("(>= " + a0 + " 0)")
